@@ -105,6 +105,7 @@ def window_pair_prover(I, N, F, LIN, lin_step, facts_at, sk0, sk1):
         for y in (same(N0), cl1(N0, src_pos[1]), cl2(N0, T0), rec1["lem_f"](N0, src_pos[1], F0), rec2["lem_f"](N0, T0, F0), rec1["inj"](src_pos), rec1["mm"](*src_pos), rec2["mm"](N0, T0, F0), facts_at(N0)):
             I.ex.instance(y)
 
+    prove.window_lemmas = window_lemmas
     return prove
 
 
@@ -293,6 +294,127 @@ def chunk_p_vc():
                            "lengths within [0, T]: precondition; slice bounds arbitrary integers; lin_F(i) = i * F by its recurrence (definition)",
                            "the inductions (coefficients, frames, sequences) are applied outside the solver: base and step are obligations",
                            "mode 'constant' with lengths given (reflect / replicate and omitted lengths: bounded driver); values are moved, not computed"])
+
+
+def masked_p_vc(batch_first):
+    """P rung: pad_masked_sequence for SYMBOLIC batch size, extent, feature size and ANY mask. With cnt(n, t) = number of selected
+    frames of sequence n before t (the partial sums of the code's own `mask.sum(1)`, assumed partial-sum contract):
+        lens[n] = cnt(n, T);   every selected frame t lands at position cnt(n, t):  out[n, cnt(n, t), f] = x[n, t, f];
+        out[n, q, f] = padding value for q >= lens[n]
+    (positions below lens[n] are all hit: cnt grows by one at every selected frame). Compaction contracts as in pad_variable; the
+    source mask is arbitrary, so its frame counter is F * cnt(n, t) (induction over t against the partial sums), the destination is
+    the window [0, lens[n]); further lemmas by induction: 0 <= cnt(n, t) <= t and cnt(n, t) > cnt(n, t0) for t > t0 selected."""
+    import pydrobert.torch._pad as P
+    from vf.pyvc import symtensor as stn
+
+    z = ip.to_z3
+    N, T, F, N0, T0, F0, N1, T1, F1, Q0 = z3.Ints("N T F n0 t0 f0 n1 t1 f1 q0")
+    PADV = z3.Real("padding_value")
+    Iz, Rz, Bz = z3.IntSort(), z3.RealSort(), z3.BoolSort()
+    X, MASK = z3.Function("x", Iz, Iz, Iz, Rz), z3.Function("mask", Iz, Iz, Bz)
+    LIN = z3.Function("lin_F", Iz, Iz)
+    lin_step = lambda i: LIN(i + 1) == LIN(i) + F
+    i_ = z3.Int("i_q")
+    a_, b_, c_ = z3.Ints("a_q b_q c_q")
+    true_at = lambda n: z3.BoolVal(True)
+
+    def thunk(I):
+        I.stubs.update(stn.stubs())
+        xe = (lambda a, b, c: X(z(a), z(b), z(c))) if batch_first else (lambda b, a, c: X(z(a), z(b), z(c)))
+        me = (lambda a, b: MASK(z(a), z(b))) if batch_first else (lambda b, a: MASK(z(a), z(b)))
+        x = stn.ST((N, T, F) if batch_first else (T, N, F), xe, "float")
+        m = stn.ST((N, T) if batch_first else (T, N), me, "bool")
+        prove = window_pair_prover(I, N, F, LIN, lin_step, true_at, (N0, Q0, F0), (N1, T1, F1))
+
+        def hook(rec2, src):
+            rec1 = getattr(src, "compaction", None)
+            sums = [s_ for s_ in I.ex.ghost.get("sums", []) if s_.get("kind") == "sum"]
+            if rec1 is None or rec1["rank_"] != 3 or rec2["rank_"] != 3 or len(sums) != 1 or "cnt" in I.ex.ghost:
+                raise ip.Unsupported("pad_masked_sequence: one mask.sum and one scatter of a masked_select of a rank-3 tensor expected")
+            sm = sums[0]
+            PS = sm["S"]
+            I.ex.ghost["cnt"] = PS
+            I.ex.oblige("compaction.count_runs_over_the_frames", z3.And(sm["T"] == T, rec1["dims"][0] == N, rec1["dims"][1] == T, rec1["dims"][2] == F))
+            I.ex.oblige("compaction.counted_value_is_the_mask", z3.Implies(z3.And(0 <= N1, N1 < N, 0 <= T1, T1 < T), sm["val"]([N1], T1) == z3.If(MASK(N1, T1), 1, 0)))
+            cv = lambda n, t: z3.Implies(z3.And(0 <= n, n < N, 0 <= t, t < T), sm["val"]([n], t) == z3.If(MASK(n, t), 1, 0))
+            I.ex.assume(z3.ForAll([a_, b_], cv(a_, b_)))
+            for y in (sm["base"](N1), sm["step"](N1, T1), cv(N1, T1), sm["base"](N0), cv(N0, T0), sm["step"](N0, T0)):
+                I.ex.instance(y)
+            # 0 <= cnt(n, t) <= t
+            rng = lambda n, t: z3.Implies(z3.And(0 <= n, n < N, 0 <= t, t <= T), z3.And(0 <= PS(n, t), PS(n, t) <= t))
+            I.ex.oblige("count.range.base", rng(N1, z3.IntVal(0)))
+            I.ex.oblige("count.range.step", z3.Implies(z3.And(0 <= T1, T1 < T, rng(N1, T1)), rng(N1, T1 + 1)))
+            I.ex.assume(z3.ForAll([a_, b_], rng(a_, b_)))
+            # cnt(n0, t) > cnt(n0, t0) for t > t0 when frame t0 is selected
+            later = lambda t: z3.Implies(z3.And(0 <= N0, N0 < N, 0 <= T0, T0 < t, t <= T, MASK(N0, T0)), PS(N0, t) >= PS(N0, T0) + 1)
+            I.ex.instance(sm["step"](N0, T1))
+            I.ex.instance(cv(N0, T1))
+            I.ex.oblige("count.grows_after_a_selected_frame.base", later(T0 + 1))
+            I.ex.oblige("count.grows_after_a_selected_frame.step", z3.Implies(z3.And(T0 < T1, T1 < T, later(T1)), later(T1 + 1)))
+            I.ex.assume(z3.ForAll([b_], later(b_)))
+            for y in (later(T), rng(N0, T0), rng(N0, T), rng(N1, T), rng(N1, T1)):
+                I.ex.instance(y)
+            # source: arbitrary mask - coefficients, then frames against the partial sums
+            mm = lambda n, t, f: z3.Implies(z3.And(0 <= n, n < N, 0 <= t, t < T, 0 <= f, f < F), rec1["mask"]([n, t, f]) == MASK(n, t))
+            I.ex.oblige("compaction.source.mask_is_the_given_mask", mm(N1, T1, F1))
+            I.ex.assume(z3.ForAll([a_, b_, c_], mm(a_, b_, c_)))
+            cf, ctt = rec1["CNT"][2], rec1["CNT"][1]
+            lem = lambda n, t, f: z3.Implies(z3.And(0 <= n, n < N, 0 <= t, t < T, 0 <= f, f <= F), cf(n, t, f) == z3.If(MASK(n, t), f, 0))
+            for y in (rec1["base"](2, [N1, T1]), rec1["step"](2, [N1, T1], F1), mm(N1, T1, F1)):
+                I.ex.instance(y)
+            I.ex.oblige("compaction.source.coefficients.base", lem(N1, T1, z3.IntVal(0)))
+            I.ex.oblige("compaction.source.coefficients.step", z3.Implies(z3.And(0 <= F1, F1 < F, lem(N1, T1, F1)), lem(N1, T1, F1 + 1)))
+            I.ex.assume(z3.ForAll([a_, b_, c_], lem(a_, b_, c_)))
+            cl1 = lambda n, t: z3.Implies(z3.And(0 <= n, n < N, 0 <= t, t <= T), ctt(n, t) == LIN(PS(n, t)))
+            for y in (rec1["base"](1, [N1]), rec1["step"](1, [N1], T1), lem(N1, T1, F), lin_step(PS(N1, T1))):
+                I.ex.instance(y)
+            I.ex.oblige("compaction.source.frames.base", cl1(N1, z3.IntVal(0)))
+            I.ex.oblige("compaction.source.frames.step", z3.Implies(z3.And(0 <= T1, T1 < T, cl1(N1, T1)), cl1(N1, T1 + 1)))
+            I.ex.assume(z3.ForAll([a_, b_], cl1(a_, b_)))
+            rec1.update(lem_f=lem, lem_t=cl1, mm=mm)
+            # destination: the window [0, lens); sequences; then the instances for the postcondition at (n0, q0 = cnt(n0, t0), f0)
+            lens_ = lambda n: PS(n, T)
+            cl2 = prove.window_lemmas("destination", rec2, (lambda n: z3.IntVal(0)), lens_)
+            c1, c2 = rec1["CNT"], rec2["CNT"]
+            same = lambda n: z3.Implies(z3.And(0 <= n, n <= N), c1[0](n) == c2[0](n))
+            for y in (rec1["base"](0, []), rec2["base"](0, []), rec1["step"](0, [], N1), rec2["step"](0, [], N1), cl1(N1, T), cl2(N1, rec2["dims"][1])):
+                I.ex.instance(y)
+            I.ex.oblige("compaction.destination.extent", rec2["dims"][1] == T)
+            I.ex.oblige("compaction.sequences.base", same(z3.IntVal(0)))
+            I.ex.oblige("compaction.sequences.step", z3.Implies(z3.And(0 <= N1, N1 < N, same(N1)), same(N1 + 1)))
+            I.ex.assume(z3.ForAll([a_], same(a_)))
+            q = PS(N0, T0)
+            for y in (same(N), same(N0), cl1(N0, T0), cl2(N0, q), cl2(N0, Q0), lem(N0, T0, F0), rec2["lem_f"](N0, q, F0), rec2["lem_f"](N0, Q0, F0), rec1["inj"]([N0, T0, F0]), mm(N0, T0, F0),
+                      rec2["mm"](N0, q, F0), rec2["mm"](N0, Q0, F0)):
+                I.ex.instance(y)
+
+        I.ex.ghost["scatter_hooks"] = [hook]
+        return I.call(P.pad_masked_sequence, [x, m, batch_first, PADV], {})
+
+    def post(p):
+        if not api.returns(p) or not isinstance(p.value, tuple) or len(p.value) != 2 or "cnt" not in p.ghost:
+            return False
+        out, lens = p.value
+        PS = p.ghost["cnt"]
+        oe = (lambda n, t, f: z(out.elem(n, t, f))) if batch_first else (lambda n, t, f: z(out.elem(t, n, f)))
+        shp = (N, T, F) if batch_first else (T, N, F)
+        at = z3.And(0 <= N0, N0 < N, 0 <= F0, F0 < F)
+        return [("result_shape", z3.And(z3.BoolVal(len(out.shape) == 3 and len(lens.shape) == 1), z3.And([z(a) == b for a, b in zip(out.shape, shp)]), z(lens.shape[0]) == N)),
+                ("reported_length_is_the_number_of_selected_frames", z3.Implies(z3.And(0 <= N0, N0 < N), z(lens.elem(N0)) == PS(N0, T))),
+                ("selected_frame_lands_at_its_count", z3.Implies(z3.And(at, 0 <= T0, T0 < T, MASK(N0, T0)), z3.And(PS(N0, T0) < PS(N0, T), oe(N0, PS(N0, T0), F0) == X(N0, T0, F0)))),
+                ("padding_from_the_reported_length_on", z3.Implies(z3.And(at, PS(N0, T) <= Q0, Q0 < T), oe(N0, Q0, F0) == PADV))]
+
+    pre = [N >= 1, T >= 0, F >= 1, LIN(0) == 0, z3.ForAll([i_], lin_step(i_))]
+    return VC("C09.P.pad_masked_sequence", "pad_masked_sequence[batch_first=%s; symbolic N, T, F, any mask]" % batch_first, M, "pad_masked_sequence", thunk, pre=pre, posts=[("selected_in_order_then_padding", post)],
+              inputs={"N": N, "T": T, "F": F}, timeout_ms=40000, max_paths=64, witness_hints=[N == 1, T == 2, F == 1],
+              assumptions=["masked_select / masked_scatter = stable row-major compaction through per-dimension counters, sum over a symbolic extent = partial sums (assumed contracts of vf/pyvc/symtensor.py, differentially tested against torch)",
+                           "cnt(n, t) = the partial sums of the code's mask.sum(1) (checked: the summand is the mask); lin_F(i) = i * F by its recurrence (definition)",
+                           "the inductions (count range, count growth, coefficients, frames, sequences) are applied outside the solver: base and step are obligations",
+                           "one trailing feature dimension; values are moved, not computed"])
+
+
+def masked_p_vcs(ctx):
+    return [masked_p_vc(True), masked_p_vc(False)]
 
 
 def pad_p_vcs(ctx):
